@@ -1923,12 +1923,28 @@ func (g *verifC18RG) observe(resp *bumpResp) {
 			continue
 		}
 		members = append(members, m)
-		if qi, ok := g.reqOf[in.OutPoint()]; ok && (r.Event == TxFailed || r.Event == TxFatal || r.Event == TxUnknownSpend) {
-			g.reqs[qi].dead = true
+		var q *verifC18RGReq
+		if qi, ok := g.reqOf[in.OutPoint()]; ok {
+			q = g.reqs[qi]
+			if r.Event == TxFailed || r.Event == TxFatal || r.Event == TxUnknownSpend {
+				q.dead = true
+			}
 		}
-		if r.Event == TxFailed && r.FeeRate == 0 && g.last[m] > 0 {
+		// Fingerprint classes (see judgeOffer). Kept narrow, so that
+		// other ways of losing the rate stay unclassified:
+		//  - wiped: handleInitialTxError's TxFailed without fee rate
+		//    for ErrTxNoOutput / ErrZeroFeeRateDelta;
+		//  - lowered: a request that failed before it handed any tx
+		//    to the wallet reports its own (lower) ending rate.
+		switch {
+		case r.Event == TxFailed && r.FeeRate == 0 && g.last[m] > 0 &&
+			(errors.Is(r.Err, ErrTxNoOutput) || errors.Is(r.Err, ErrZeroFeeRateDelta)):
+
 			g.zeroed[m] = true
-		} else if (r.Event == TxFailed || r.Event == TxUnknownSpend) && int64(r.FeeRate) < g.last[m] {
+
+		case r.Event == TxFailed && r.FeeRate != 0 && int64(r.FeeRate) < g.last[m] &&
+			q != nil && q.handed == 0 && int64(r.FeeRate) >= q.ceilLo:
+
 			g.lowered[m] = true
 		}
 	}
